@@ -462,7 +462,9 @@ pub fn explore(check: &mut Check, prop: &str, engine: &str) {
     let mut total_reads = 0u64;
     let mut total_ops = 0u64;
     let mut exhaustive = true;
-    let budget_s: f64 = std::env::var("VCHECK_BUDGET_S").ok().and_then(|s| s.parse().ok()).unwrap_or(if tier == Tier::Quick { 50.0 } else { 3000.0 });
+    // wall budget of the breadth-first searches of this check, counted from here (the fixed long
+    // histories that some checks run first do not eat into it)
+    let budget_s: f64 = check.elapsed() + std::env::var("VCHECK_BUDGET_S").ok().and_then(|s| s.parse().ok()).unwrap_or(if tier == Tier::Quick { 50.0 } else { 3000.0 });
     let only = std::env::var("VCHECK_ONLY").ok();
     for (si, sc) in scs.iter().enumerate() {
         if let Some(o) = &only {
